@@ -41,6 +41,7 @@ type Scenario struct {
 	Timed    bool // uses blocking pops: virtual time auto-advances
 	PubSub   bool
 	Conns    []string // pubsub: thread i uses connection Conns[i] ("" = none)
+	Gen      bool     // generated pair scenario (pairs.go): reported in aggregate
 }
 
 type opRec struct {
@@ -401,11 +402,11 @@ type task struct {
 
 type result struct {
 	Schedules, Preemptive, MaxPoints int
-	Complete                        bool
-	Outcomes                        int
-	Viol                            []cviol
-	Sample                          string
-	AuditRuns, AuditLocked          int
+	Complete                         bool
+	Outcomes                         int
+	Viol                             []cviol
+	Sample                           string
+	AuditRuns, AuditLocked           int
 }
 
 func obsKey(rs *runState) string {
@@ -525,7 +526,14 @@ func racePass(prop string, reps int) int {
 	h.Boot(shardNum, 1)
 	only := os.Getenv("CONC_SCENARIO")
 	for _, sc := range allScenarios() {
-		if sc.Prop != prop || (only != "" && sc.ID != only) {
+		if !scMatches(sc, prop) {
+			continue
+		}
+		if strings.HasSuffix(only, "*") {
+			if !strings.HasPrefix(sc.ID, strings.TrimSuffix(only, "*")) {
+				continue
+			}
+		} else if only != "" && sc.ID != only {
 			continue
 		}
 		for r := 0; r < reps; r++ {
@@ -641,6 +649,15 @@ type raceRep struct {
 
 var raceHangs int
 
+// scMatches: the scenarios of a property.  C09 ("each element goes to exactly one popper", lists under
+// concurrent clients) borrows the generated list and blocking-pop pairs of C05.
+func scMatches(sc *Scenario, prop string) bool {
+	if sc.Prop == prop {
+		return true
+	}
+	return prop == "C09" && sc.Gen && (strings.HasPrefix(sc.ID, "pair:list:") || strings.HasPrefix(sc.ID, "pair:blocking:"))
+}
+
 // runRace runs the -race binary scenario by scenario and parses its reports.
 func runRace(prop string, reps int, rep *ev.Report) (runs int, reports int, ok bool) {
 	bin := os.Getenv("VERIF_RACE_BIN")
@@ -648,14 +665,35 @@ func runRace(prop string, reps int, rep *ev.Report) (runs int, reports int, ok b
 		return 0, 0, false
 	}
 	seen := map[string]bool{}
+	var list []*Scenario
+	nGen := 0
 	for _, sc := range allScenarios() {
-		if sc.Prop != prop {
+		if !scMatches(sc, prop) {
 			continue
 		}
-		cmd := exec.Command(bin, "race", prop, strconv.Itoa(reps))
+		if sc.Gen {
+			nGen++
+			continue
+		}
+		list = append(list, sc)
+	}
+	if nGen > 0 {
+		// the generated pairs run in one subprocess, a few repetitions each
+		list = append(list, &Scenario{ID: "pair:*", Prop: prop, Gen: true})
+	}
+	for _, sc := range list {
+		n := reps
+		if sc.Gen {
+			n = reps/5 + 1
+		}
+		cmd := exec.Command(bin, "race", prop, strconv.Itoa(n))
 		cmd.Env = append(os.Environ(), "CONC_SCENARIO="+sc.ID, "GORACE=halt_on_error=0", "GOMAXPROCS=8")
 		outb, _ := cmd.CombinedOutput()
-		runs += reps
+		if sc.Gen {
+			runs += n * nGen
+		} else {
+			runs += n
+		}
 		txt := string(outb)
 		if i := strings.Index(txt, "fatal error:"); i >= 0 {
 			line := txt[i:]
@@ -768,7 +806,7 @@ func main() {
 	p := &pool.Pool{Handler: "concmc", N: 16, Timeout: 60 * time.Second, MemMB: 4096}
 	var tasks [][]byte
 	for _, sc := range allScenarios() {
-		if sc.Prop != prop {
+		if !scMatches(sc, prop) {
 			continue
 		}
 		b, _ := json.Marshal(task{Mode: "explore", Scenario: sc.ID, Prop: prop, Bound: bound, Max: maxSched})
@@ -787,6 +825,8 @@ func main() {
 	var samples []string
 	var perScenario []map[string]interface{}
 	var nonColliding []string
+	genScen, genSched, genColliding := 0, 0, 0
+	var genTruncated []string
 	p.Map(tasks, func(tb, out []byte, crash *pool.Crash) [][]byte {
 		var t task
 		json.Unmarshal(tb, &t)
@@ -808,10 +848,21 @@ func main() {
 			if !r.Complete {
 				truncated++
 			}
-			if r.Outcomes <= 1 {
-				nonColliding = append(nonColliding, t.Scenario)
+			if strings.HasPrefix(t.Scenario, "pair:") {
+				genScen++
+				genSched += r.Schedules
+				if r.Outcomes > 1 {
+					genColliding++
+				}
+				if !r.Complete {
+					genTruncated = append(genTruncated, t.Scenario)
+				}
+			} else {
+				if r.Outcomes <= 1 {
+					nonColliding = append(nonColliding, t.Scenario)
+				}
+				perScenario = append(perScenario, map[string]interface{}{"id": t.Scenario, "schedules": r.Schedules, "distinct_outcomes": r.Outcomes, "max_points": r.MaxPoints, "bound_completed": r.Complete})
 			}
-			perScenario = append(perScenario, map[string]interface{}{"id": t.Scenario, "schedules": r.Schedules, "distinct_outcomes": r.Outcomes, "max_points": r.MaxPoints, "bound_completed": r.Complete})
 			if r.Sample != "" && len(samples) < 6 {
 				samples = append(samples, r.Sample)
 			}
@@ -838,12 +889,20 @@ func main() {
 		"preemption_bound":      bound,
 		"per_scenario":          perScenario,
 		"non_colliding":         nonColliding,
+		"generated_pairs":       map[string]interface{}{"scenarios": genScen, "schedules": genSched, "with_more_than_one_outcome": genColliding, "truncated": genTruncated, "rule": "every unordered pair of the per-type single-key alphabets (pairs.go), one command per thread on the same key, from each seed state; pairs of two read-only commands skipped"},
 		"lock_audit_runs":       auditRuns,
 		"lock_audit_with_locks": auditLocked,
 		"race_pass_ran":         raceRan,
 		"race_pass_runs":        raceRuns,
 		"race_reports":          raceReports,
 		"race_pass_hangs":       raceHangs,
+	}
+	if sub := os.Getenv("VERIF_SUBREPORT"); sub != "" {
+		if err := rep.Export(sub, cov); err != nil {
+			fmt.Fprintln(os.Stderr, err)
+			os.Exit(2)
+		}
+		os.Exit(0)
 	}
 	os.Exit(rep.Finish(cov, []string{
 		"interleavings inside a region without synchronisation operations are not explored; unsynchronised accesses are the business of the -race pass, which is dynamic and not exhaustive",
